@@ -304,6 +304,15 @@ static int corr(uint64_t seed, const std::string& tier, const std::string& outdi
         if (!s.empty()) codeArg = s;
     }
 
+    {
+        std::vector<std::string> l;
+        for (const auto& kw : codeKws) l.push_back(hex(kw.first) + ":" + hex(kw.second));
+        std::sort(l.begin(), l.end());
+        std::string a;
+        for (size_t i = 0; i < l.size(); ++i) { if (i) a += ","; a += l[i]; }
+        sink.emit("deck.codekws x", a);
+    }
+
     // (i) function level
     for (int n = 0; n < nLines; ++n) {
         int which = r.range(0, 17);
